@@ -31,7 +31,7 @@ EXPECTED_PROBES = ['tls', 'plain', 'burst_over_64k', 'many_frames_one_read',
                    'burst_ends_with_empty_frame', 'ctl_inside_unfinished_message',
                    'threaded', 'pong_before_next_wait',
                    'burst_exact_multiple_of_buffer',
-                   'pong_write_failed_mid_read']
+                   'pong_write_failed_mid_read', 'slow_ping_handler']
 ASSUMPTIONS = ['the "real loopback TCP and TLS runs" clause of the property '
                'is runtime observation of uncontrolled executions and is not '
                'part of this verdict (DESIGN.md section 10)']
@@ -150,6 +150,11 @@ def make_case(family, i, rng, tier):
             'reply_glued': rng.random() < 0.3,
             'readahead': tls and rng.random() < 0.35,
             'auto_pong': True}
+    if rng.random() < 0.12:
+        # the application takes longer than the poll interval to handle the
+        # first Ping (a Poll falls due meanwhile); only what is written is
+        # judged then, not when
+        case['slow_ping_handler'] = True
     if tls and rng.random() < 0.3:
         # the TLS layer belongs to an https:// proxy, the URL itself is ws://
         case['via_https_proxy'] = True
@@ -315,6 +320,9 @@ def build(case):
           'connect': {'poll': p, 'ping_rate': 0,
                       'auto_pong': case.get('auto_pong', True)},
           'conns': [conn], 'max_polls': 400000, 'max_events': 100000}
+    if case.get('slow_ping_handler'):
+        sc['app'] = [{'when': {'name': 'ping', 'nth': 0},
+                      'do': [{'op': 'sleep', 'us': int(1.2 * p * 1e6) + 7}]}]
     return sc, enc, ST.reply_len(reply) + (len(ok) if px else 0), burst_bounds
 
 
@@ -425,9 +433,12 @@ def execute(case):
                     lo = mid + 1
             return avail[lo][1]
 
+        slow = bool(case.get('slow_ping_handler'))
+        if slow:
+            res.stats['probe:slow_ping_handler'] += 1
         for e, end in zip(msgs, enc.expected_ends):
             at = avail_time(rlen + end)
-            if e.t != at:
+            if e.t != at and not slow:
                 res.bad('C18/%s/late_delivery' % tag,
                         '%s event #%d yielded at t=%d us; its last byte was '
                         'available at t=%d us (poll=%s s, short=%r, record=%r)'
@@ -450,6 +461,8 @@ def execute(case):
                 len(ping_ends), len(pongs)))
         else:
             for f, end in zip(pongs, ping_ends):
+                if slow:
+                    break
                 if times.get(f.start) != avail_time(rlen + end):
                     res.bad('C18/%s/late_pong' % tag,
                             'Pong written at %r, Ping available at %d' % (
